@@ -28,7 +28,7 @@ def main(argv):
     j, w, n, deadline_s = int(argv[2]), int(argv[3]), int(argv[4]), float(argv[5])
     verif_seed = int(os.environ.get("VERIF_SEED", "0") or 0)
     faulthandler.enable()
-    faulthandler.dump_traceback_later(deadline_s + 120, exit=True)
+    faulthandler.dump_traceback_later(deadline_s + 360, exit=True)
     mod = importlib.import_module("sim.props." + prop.lower())
     run_timeout = getattr(mod, "RUN_TIMEOUT_S", 30)
     t0 = time.time()
@@ -47,7 +47,9 @@ def main(argv):
         seed = run_seed(verif_seed, prop, tier, i)
         case = make_case(mod, seed, tier, i, verif_seed)
         tape = Tape(seed)
+        t_run = time.time()
         out = run_one(mod, case, tape, run_timeout)
+        t_run = time.time() - t_run
         res["runs"] += 1
         res["stats"].update(out["stats"])
         res["subspaces"][out.get("subspace", "")] += 1
@@ -76,7 +78,8 @@ def main(argv):
             rec = kept.get(v["oracle"])
             if rec is None:
                 kept[v["oracle"]] = {"run": i, "seed": seed, "case": case,
-                                     "tape": list(tape.rec), "violation": v, "count": 1}
+                                     "tape": list(tape.rec), "violation": v, "count": 1,
+                                     "run_wall_s": round(t_run, 2)}
             else:
                 rec["count"] += 1
     # minimise the first unknown violation of each oracle (bounded, best effort)
@@ -84,7 +87,7 @@ def main(argv):
     shrink.ACCEPT = lambda v: findings.match(known, prop, v) is None
     shrink_total = min(60.0, max(10.0, deadline_s * 0.5))
     for oracle, rec in sorted(kept.items()):
-        if getattr(mod, "SHRINK", True) and shrink_total > 1:
+        if getattr(mod, "SHRINK", True) and shrink_total > 1 and rec.get("run_wall_s", 0) < 8.0:
             ts = time.time()
             try:
                 rec["min_case"], rec["min_tape"], rec["min_violation"], rec["shrink_steps"] = \
